@@ -418,6 +418,25 @@ pub fn run(cfg: &Cfg) {
             }
         }
     }
+    // ---- randomised schemes: every length a valid signature can have. An ECDSA P-256 signature is a DER pair of
+    //      minimal integers - 70 to 72 bytes as a rule, shorter when r or s begins with zero bytes (about one in
+    //      128 is 69 bytes or less); sign until each length from 68 to 72 has been seen, verify each
+    for k in pool.iter().filter(|k| k.scheme == in_toto::crypto::SignatureScheme::EcdsaP256Sha256).take(2) {
+        let content = MetadataWrapper::Link(gen_link(&mut r, Some("step")));
+        let mut seen: BTreeSet<usize> = BTreeSet::new();
+        for _ in 0..(if cfg.thorough { 60_000 } else { 12_000 }) {
+            let sig = valid_sig(&content, k);
+            if !seen.insert(sig.len()) {
+                continue;
+            }
+            let e = Entry { label: keyid_hex(k.public()), sig, valid_under_label: true, class: "valid" };
+            run_case(&mut sink, &content, &[e], 1, &[k], "ecdsa-signature-length");
+            if seen.len() >= 5 {
+                break;
+            }
+        }
+        sink.stat(&format!("ecdsa-signature-lengths-seen={:?}", seen));
+    }
     // ---- signatures that verified a moment ago, over other content: a block is verified (successfully), then
     //      another block - other content - that lists the very same entries (same key ids, same signature
     //      values). What verified over the first content is no signature over the second; with two keys and
